@@ -289,6 +289,7 @@ MC_CHUNKING_QUICK = [
     C('UTF-8', 'off', 'utf8', True, 2, [4, 5, 7, 64], [0x41, 0x80, 0xC2, 0xE0, 0xA0, 0xF0, 0x90]),
     C('UTF-8', 'off', 'utf16', False, 2, [2, 3, 64], [0x41, 0x80, 0xC2, 0xE0, 0xA0, 0xF0, 0x90]),
     C('gb18030', 'off', 'utf8', True, 2, [4, 5, 64], [0x30, 0x41, 0x81, 0x84, 0xFF]),
+    C('EUC-JP', 'off', 'utf8', True, 2, [4, 5, 64], [0x41, 0x8E, 0x8F, 0xA1, 0xB0, 0xFF]),
 ]
 MC_CHUNKING_THOROUGH = MC_CHUNKING_QUICK + [
     C('UTF-8', 'off', 'utf8', True, 3, [4, 5, 6, 7, 64], [0x41, 0x80, 0xBF, 0xC2, 0xE0, 0xA0, 0xED, 0xF0, 0x90, 0xF4, 0xFF]),
@@ -299,6 +300,8 @@ MC_CHUNKING_THOROUGH = MC_CHUNKING_QUICK + [
     C('ISO-2022-JP', 'off', 'utf8', True, 3, [4, 5, 64], [0x1B, 0x24, 0x28, 0x42, 0x4A, 0x41, 0x21, 0x80]),
     C('ISO-2022-JP', 'off', 'utf16', False, 3, [2, 3, 64], [0x0E, 0x1B, 0x24, 0x28, 0x40, 0x42, 0x49, 0x4A, 0x5C, 0x21]),
     C('IBM866', 'off', 'utf8', False, 4, [4, 5, 6, 7, 64], [0x20, 0x3B, 0x41, 0x80, 0xB0, 0xFF]),
+    C('EUC-JP', 'off', 'utf8', True, 3, [4, 5, 6, 64], [0x20, 0x41, 0x80, 0x8E, 0x8F, 0xA1, 0xA4, 0xDF, 0xFE, 0xFF]),
+    C('EUC-JP', 'off', 'utf16', False, 3, [2, 3, 64], [0x41, 0x8E, 0x8F, 0xA1, 0xB0, 0xFF]),
     C('gb18030', 'off', 'utf8', False, 3, [4, 5, 6, 64], [0x30, 0x41, 0x80, 0x81, 0x84, 0xFE, 0xFF]),
     C('gb18030', 'off', 'utf16', True, 3, [2, 3, 64], [0x30, 0x40, 0x81, 0xA1, 0xE3, 0xFF]),
     C('GBK', 'sniff', 'utf8', True, 2, [4, 5, 64], [0x30, 0x41, 0x81, 0xEF, 0xBB, 0xBF, 0xFF]),
@@ -412,7 +415,7 @@ def run_mc_set(rep, binp, configs, what, module='MC_DecQ', kind='dec'):
 
 
 def E(enc, source, repl, maxpend, caps, alphabet):
-    return dict(EncName=enc, Source=source, Repl=repl, MaxPend=maxpend, Caps=caps, Alphabet=alphabet)
+    return dict(EncName=enc, EncSource=source, Repl=repl, MaxPend=maxpend, Caps=caps, Alphabet=alphabet)
 
 
 MC_ENC_QUICK = [
@@ -422,8 +425,13 @@ MC_ENC_QUICK = [
     E('gb18030', 'utf8', True, 3, [14, 15, 17, 18, 64], [0x41, 0x80, 0x20AC, 0x4E00, 0xE5E5, 0xE7C7, 0x1F4A9]),
     E('windows-1252', 'utf8', True, 3, [14, 15, 16, 64], [0x41, 0x2C, 0x80, 0xE9, 0x20AC, 0x3042, 0x1F4A9]),
     E('EUC-KR', 'utf8', False, 3, [4, 5, 6, 64], [0x41, 0x2C, 0xAC00, 0x4E00, 0xE9, 0x1F4A9]),
+    E('windows-1252', 'utf16', False, 3, [4, 5, 6, 64], [0x41, 0x2C, 0xE9, 0x20AC, 0x3042, 0x1F4A9, 0xD83D]),
+    E('UTF-8', 'utf16', False, 3, [4, 5, 6, 7, 64], [0x41, 0xE9, 0x20AC, 0x1F4A9, 0xDCA9]),
+    E('x-user-defined', 'utf8', True, 3, [14, 15, 64], [0x41, 0x7F, 0x80, 0xF780, 0xF7FF, 0x1F4A9]),
 ]
 MC_ENC_THOROUGH = MC_ENC_QUICK + [
+    E('UTF-8', 'utf8', True, 3, [4, 5, 6, 7, 64], [0x41, 0xE9, 0x20AC, 0x1F4A9, 0x7FF, 0x800]),
+    E('IBM866', 'utf16', True, 3, [14, 15, 16, 64], [0x41, 0x2C, 0x410, 0xE9, 0x3042, 0x1F4A9, 0xDCA9]),
     E('ISO-2022-JP', 'utf8', True, 3, [14, 15, 16, 17, 20, 64], [0x41, 0x5C, 0x7E, 0x0E, 0xA5, 0x203E, 0x2212, 0x3042, 0xFF61, 0x4E00, 0xE9, 0x1F4A9]),
     E('ISO-2022-JP', 'utf16', False, 3, [4, 5, 6, 7, 64], [0x41, 0x5C, 0x1B, 0xA5, 0x3042, 0xFF9F, 0x4EDD, 0xE9, 0x1F4A9, 0xD83D]),
     E('Shift_JIS', 'utf16', True, 3, [14, 15, 16, 64], [0x41, 0x5C, 0x80, 0xA5, 0x203E, 0x2212, 0xFF61, 0x3042, 0x1F4A9, 0xDCA9]),
@@ -446,7 +454,7 @@ def plan_C02(rep, seed, tier):
     rv(rep, binp, 'dec-cutsets', seed, tier, shards=32 if tier == 'thorough' else 16)
     rv(rep, binp, 'dec-random', seed, tier)
     rv(rep, binp, 'dec-deep', seed, tier, shards=32 if tier == 'thorough' else 16)
-    run_mc_set(rep, binp, MC_CHUNKING_THOROUGH if tier == 'thorough' else [MC_CHUNKING_QUICK[i] for i in (0, 1, 2, 4, 5, 7, 8, 9, 10)],
+    run_mc_set(rep, binp, MC_CHUNKING_THOROUGH if tier == 'thorough' else [MC_CHUNKING_QUICK[i] for i in (0, 1, 2, 4, 5, 7, 8, 9, 10, 11)],
                'Layer I x DecoderMonitor: all Stage/Invoke interleavings, invariant NoViolation (prefix rule, completeness, spans, progress, no panic)')
     rep.cov['rule'] = ('all cut sets of every stream of length <= 3 (thorough: 4, plus seeded 5..7) over the per-encoding class alphabet x capacities min..min+3 and 64 '
                        'x 4 sinks x replacement x empty final call; seeded random histories with re-cuts, empty calls and queried capacities')
